@@ -545,3 +545,34 @@ func (c *Ctx) nonNilOnEdge(v ssa.Value, pred, blk *ssa.BasicBlock) bool {
 	}
 	return false
 }
+
+// reachingStores: the stores into local variable al that may be the last one executed before
+// instruction `at` (same function). For uses in other functions (captured variable) all stores count.
+func reachingStores(al *ssa.Alloc, at ssa.Instruction) []*ssa.Store {
+	var all []*ssa.Store
+	for _, ref := range *al.Referrers() {
+		if st, ok := ref.(*ssa.Store); ok && st.Addr == ssa.Value(al) {
+			all = append(all, st)
+		}
+	}
+	if at == nil || at.Parent() != al.Parent() || len(all) <= 1 {
+		return all
+	}
+	isStore := func(x ssa.Instruction) bool {
+		for _, s := range all {
+			if x == ssa.Instruction(s) {
+				return true
+			}
+		}
+		return false
+	}
+	var out []*ssa.Store
+	for _, st := range all {
+		s := newIPSearch(func(x ssa.Instruction) bool { return x == at }, func(x ssa.Instruction) bool { return isStore(x) && x != ssa.Instruction(st) })
+		s.flat = true
+		if s.scan(st.Block(), instrIndex(st)+1, nil) {
+			out = append(out, st)
+		}
+	}
+	return out
+}
